@@ -25,7 +25,7 @@ manifest, with a demonstration that fails with the change and passes without it.
 stored as `seeded/<id>/{{patch.diff, seed_demo.rs (or .sh), README.md, meta.json}}`; the worktrees and their build output
 were removed afterwards. To run the checks against a change `tools/run_seed.sh <id> <checks>` applies the patch to /repo
 (`git apply`), runs `./check`, and undoes it (`git checkout -- .`); nothing of this was ever committed to /repo. No
-request was refused by the permission system or a safety layer, by a sub-agent or by me. Sixty-three later agents (second round: C01, C06, C10, C14, C17, C18, C19; third round: C14, C17; fourth round: C08, C13; fifth round: C01, C14, C17; sixth round: C08, C11; seventh round: C01, C10; eighth round: C08, C11, C12; ninth round: C01, C02, C06, C07, C17 - half of that round; tenth round: C03, C07, C08, C11; eleventh round: C07, C09, C12, C13, C15 - half of that round; twelfth round: C01, C02, C15; thirteenth round: C02, C04, C06, C07, C09, C16, C19 - seven of ten; the C16 one, the result queue bounded to 8 per pool thread where C16d bounds it to 8, was run once against ./check C16 and reported with a hanging input; fourteenth round: C01 (= C19g), C11 (= C03f), C17 (= C17j); fifteenth round: C05 (= C16), C07 (= C07), C12 (= C12b)) came back with the same change as an
+request was refused by the permission system or a safety layer, by a sub-agent or by me. Sixty-four later agents (second round: C01, C06, C10, C14, C17, C18, C19; third round: C14, C17; fourth round: C08, C13; fifth round: C01, C14, C17; sixth round: C08, C11; seventh round: C01, C10; eighth round: C08, C11, C12; ninth round: C01, C02, C06, C07, C17 - half of that round; tenth round: C03, C07, C08, C11; eleventh round: C07, C09, C12, C13, C15 - half of that round; twelfth round: C01, C02, C15; thirteenth round: C02, C04, C06, C07, C09, C16, C19 - seven of ten; the C16 one, the result queue bounded to 8 per pool thread where C16d bounds it to 8, was run once against ./check C16 and reported with a hanging input; fourteenth round: C01 (= C19g), C11 (= C03f), C17 (= C17j); fifteenth round: C05 (= C16), C07 (= C07), C12 (= C12b), C16 (the result queue bounded once more, to (threads + 1) x filters: run once against ./check C16 and reported with a hanging input)) came back with the same change as an
 earlier one (for C06: the change already stored for C17): not stored twice. The third round's prompt added one sentence asking
 for a less obvious place than the first function that comes to mind, which produced changes in lib.rs orchestration code;
 the fifth round's prompt additionally asked to avoid the one function where the property's main mechanism lives (changes in the
@@ -46,7 +46,7 @@ twelfth round asked for changes that only show at a boundary value (tools/seed_p
 some sizes from the implementation. The thirteenth round (same prompt, the other properties) brought seven duplicates and three new changes, two
 of them missed at first (C12n: same size, different bytes, in place; C13n: the timeout option at the top of its range). The fourteenth round asked for the change to be written as a performance shortcut proposed in good faith (an early exit, a value reused, a cheaper
 comparison, a buffer kept; tools/seed_prompt14.py; C01, C03, C08, C10, C11, C15, C17, C19): three duplicates, four new changes of which two were missed at first (C08p, C10p), and one
-change (C15p) that on inspection does not break C15 as stated - it is kept under /verif/harmless with the reasoning, and the checks stay quiet on it (14.9, H6). The fifteenth round (same prompt, the other properties; the C16 agent had not finished when this was written) brought three duplicates and six new changes; two were
+change (C15p) that on inspection does not break C15 as stated - it is kept under /verif/harmless with the reasoning, and the checks stay quiet on it (14.9, H6). The fifteenth round (same prompt, the other properties) brought four duplicates and six new changes; two were
 reported with the failing input at first run (C06q, C14q), one without it (C02q), three were missed by their property's check (C04q, C09q, C13q) - all three sit in the file / command-line
 entry point `optimize()`, which the oracles had exercised with separate destination files, valid inputs and never-expiring timeouts only.
 
